@@ -123,7 +123,12 @@ struct SWorld
     int i = st.value("i", 0), v = st.value("v", 0);
     int variant = rng.pick(4);
     if (op == "init")
+    {
+      // the machine starts either without any span or with d1 already viewing the whole array
+      if (st["exp"]["d1"]["st"] == "win")
+        d[0].emplace(base, L);
       return;
+    }
     if (op == "Default")
     {
       if (x == "k")
